@@ -422,13 +422,14 @@ class LanguageInConstraintComponent(StringBasedConstraintBase):
                     if lang:
                         if wildcard:
                             flag = True
-                        elif str(lang).lower() in languages_need:
-                            flag = True
                         else:
-                            lang_parts = str(lang).split('-')
-                            first_part = lang_parts[0]
-                            if str(first_part).lower() in languages_need:
-                                flag = True
+                            # SPARQL langMatches (RFC 4647 basic filtering): a range matches a tag that is
+                            # equal to it, or that starts with it followed by "-"
+                            low_lang = str(lang).lower()
+                            for lang_range in languages_need:
+                                if low_lang == lang_range or low_lang.startswith(lang_range + "-"):
+                                    flag = True
+                                    break
                 if not flag:
                     non_conformant = True
                     rept = self.make_v_result(target_graph, f, value_node=v)
